@@ -119,11 +119,11 @@ def build(sim_dir=SIM_DIR):
     dev profile and in the release profile.  Any failure is a harness error (exit 2)."""
     t0 = time.time()
     _fresh_target_dirs(sim_dir)
-    for prof in ([], ["--release"]):
+    for prof in ([], ["--release"], ["--features", "volute-default"], ["--release", "--features", "volute-default"]):
         p = subprocess.run(["cargo", "+nightly", "miri", "run", "-q", "--offline"] + prof + ["--", "--build-only"],
                            cwd=sim_dir, env=env_for(miriflags(0, 0)), capture_output=True, text=True, timeout=1800)
         if p.returncode != 0 or "c19_sim built" not in p.stdout:
-            raise HarnessError(f"build of the simulation harness ({'release' if prof else 'dev'} profile) failed:\n" + p.stdout[-2000:] + p.stderr[-6000:])
+            raise HarnessError(f"build of the simulation harness ({' '.join(prof) or 'dev profile'}) failed:\n" + p.stdout[-2000:] + p.stderr[-6000:])
     for t in TARGETS:
         if t not in SYSROOTS:
             continue
@@ -230,6 +230,7 @@ def run_job(job, sim_dir=SIM_DIR, repo_marker=REPO, timeout_factor=30.0, cancel=
     flags = flags_of(job)
     tgt = job.get("target")
     cmd = (["cargo", "+nightly", "miri", "run", "-q", "--offline"] + (["--release"] if job.get("release") else [])
+           + (["--features", "volute-default"] if job.get("vdefault") and not job.get("target") else [])
            + (["--target", tgt] if tgt else []) + ["--"] + argv_of(job))
     # wall-clock safety net only (a run that stops making progress is caught, deterministically, by the
     # simulated-time liveness monitor): generous, so that a correct but much slower generator — one that
